@@ -11,6 +11,7 @@ import (
 	"time"
 
 	"github.com/mk6i/mkdb/engine"
+	"github.com/mk6i/mkdb/sql"
 	"github.com/mk6i/mkdb/storage"
 	"verifharness/hx"
 )
@@ -525,8 +526,46 @@ func runLock(cfg *config) {
 		cfg.tr.Tilde(out)
 		cfg.st.Inc("close-during-create-table")
 	}
+	// the same through the evaluators themselves, as csvimport calls them (no session in between): the
+	// statement bracket belongs to the statement, whoever calls it
+	parkDirect := func(kind, q string) {
+		cfg.tr.Op("park %s %s", kind, hxs(q))
+		atomic.StoreInt32(&writes, 0)
+		atomic.StoreInt32(&armed, 1)
+		res := "ok"
+		wdog.Run(func() {
+			if pm := hx.Catch(func() {
+				st, err := engine.VerifParseSQL(q)
+				if err != nil {
+					res = "err"
+					return
+				}
+				switch v := st.(type) {
+				case sql.InsertStatement:
+					_, err = engine.EvaluateInsert(v, sess.RelationService)
+				case sql.UpdateStatementSearched:
+					err = engine.EvaluateUpdate(v, sess.RelationService)
+				case sql.DeleteStatementSearched:
+					_, err = engine.EvaluateDelete(v, sess.RelationService)
+				default:
+					res = "err"
+				}
+				if err != nil {
+					res = "err"
+				}
+			}); pm != "" {
+				res = "panic"
+			}
+		})
+		atomic.StoreInt32(&armed, 0)
+		cfg.tr.Out("%s parked-writes=%d", res, atomic.LoadInt32(&writes))
+		cfg.st.Inc("parked." + kind)
+	}
 	rounds := 2 * cfg.scale
 	for i := 0; i < rounds; i++ {
+		parkDirect("insert-direct", fmt.Sprintf("INSERT INTO t VALUES (%d, 'dx'), (%d, 'dy')", 900000+2*i, 900001+2*i))
+		parkDirect("update-direct", fmt.Sprintf("UPDATE t SET b = 'du%d' WHERE a >= 900000", i))
+		parkDirect("delete-direct", fmt.Sprintf("DELETE FROM t WHERE a = %d", 900000+2*i))
 		park("insert", fmt.Sprintf("INSERT INTO t VALUES (%d, 'x'), (%d, 'y'), (%d, 'z')", 3*i, 3*i+1, 3*i+2))
 		park("update", fmt.Sprintf("UPDATE t SET b = 'u%d' WHERE a >= 0", i))
 		park("delete", fmt.Sprintf("DELETE FROM t WHERE a = %d", 3*i))
